@@ -193,6 +193,28 @@ func termValue(t *Term) Value {
 func (fr *Frame) step(in ssa.Instruction) {
 	it := fr.it
 	switch x := in.(type) {
+	case *ssa.Defer:
+		if fr.inLoop || it.cfg(fr.fn).inLoop[x.Block()] || it.joining[x.Block()] > 0 {
+			it.abortf("defer inside a loop or a joined branch in %s", fr.fn)
+		}
+		dc := deferredCall{d: x}
+		for _, a := range x.Call.Args {
+			dc.args = append(dc.args, fr.get(a))
+		}
+		if x.Call.StaticCallee() == nil && !x.Call.IsInvoke() {
+			if _, isB := x.Call.Value.(*ssa.Builtin); !isB {
+				dc.fnv = fr.get(x.Call.Value)
+			}
+		}
+		fr.defers = append(fr.defers, dc)
+	case *ssa.RunDefers:
+		for i := len(fr.defers) - 1; i >= 0; i-- {
+			dc := fr.defers[i]
+			// performed as an ordinary call whose operands were evaluated at the defer statement
+			syn := &ssa.Call{Call: dc.d.Call}
+			fr.callArgs(syn, dc.args)
+		}
+		fr.defers = nil
 	case *ssa.DebugRef:
 	case *ssa.Alloc:
 		o := it.NewObject(x.Type().(*types.Pointer).Elem(), fr.fn.Name()+"."+allocName(x), false)
